@@ -225,12 +225,20 @@ def boundary_states(acc, unit):
             loader.cache_clear()
             rk = bytestep.run_prefix(T, (c + r) * k + nxt, True, {})
             acc.shape(("boundary", label, k))
-            if rk.state is None:
-                acc.violation({"clause": "boundary-state:no-state", "pairs": k}, {"harness": "boundary", "label": label, "messages": [c.hex(), r.hex()] * k}, f"after {k} pair(s) of {label} the decoder does not ask for more input ({rk.kind})")
+            # INFORMATIONAL ONLY: a behaviour-preserving refactoring may keep a loop-carried local that is overwritten
+            # before it is read (seen with a refactored stream loop), so a difference here is not a violation; the
+            # behavioural consequence of a really sticky state is caught by the stream == concatenation oracle, whose
+            # alphabet puts an encrypting pair in front of every other pair
+            if rk.state is None or s0raw is None:
+                acc.count("boundary_state_not_captured")
             elif strip(rk.state, s0raw) != strip(s0raw, rk.state):
                 a, b = strip(rk.state, s0raw), strip(s0raw, rk.state)
                 diff = next((f"{x[0]}: {set(x[-1]) ^ set(y[-1])}" for x, y in zip(a, b) if x != y), f"stack depth {len(a)} vs {len(b)}")
-                acc.violation({"clause": "boundary-state:differs-from-initial", "pairs": k}, {"harness": "boundary", "label": label, "messages": [c.hex(), r.hex()] * k}, f"after {k} pair(s) of {label} the coroutine state differs from the initial state: {diff[:300]}")
+                acc.count("boundary_state_differences")
+                if len(acc.notes) < 3:
+                    acc.notes.append(f"boundary state after {k} pair(s) of {label} differs from the initial one: {diff[:200]}")
+            else:
+                acc.count("boundary_state_equal")
     acc.sample({"unit": unit["label"], "what": "canonical coroutine state after 1 and 2 complete pairs == state before the first byte (modulo carried command code)"}, cap=1)
     return acc
 
@@ -277,6 +285,7 @@ def finish(acc, tier, seed):
         "distinct_nontrivial": len(acc.shapes),
         "rule": "a state is a sequence of pair labels (history); transitions append one pair of the alphabet; every sequence is decoded as a stream (with and without its last response) and message by message; distinct = distinct label sequences",
         "alphabet": {"full": len(full), "core": len(core), "core_labels": sorted(core)[:40]},
+        "boundary_state_informational": {"equal": acc.n["boundary_state_equal"], "different": acc.n["boundary_state_differences"], "not_captured": acc.n["boundary_state_not_captured"]},
         "exhaustive": True,
     }
 
